@@ -284,6 +284,7 @@ def install():
         task = asyncio.current_task()
         if mon is not None:
             mon.pop_tasks.add(task)
+            mon.decision = None
         try:
             return await orig_pop(self)
         finally:
